@@ -145,6 +145,9 @@ def sampled(rng, count, lo, hi, maxdepth=12):
         reps = [rng.randrange(3) for _ in cc]
         dup = rng.random() < 0.2
         names = [('dup' if (dup and rng.random() < 0.4) else 'n%d' % i) for i in range(len(cc))]
+        if len(names) >= 2 and rng.random() < 0.3:        # a longer name ahead of its own proper prefix (price_usd before price)
+            i = rng.randrange(len(names) - 1); j = rng.randrange(i + 1, len(names))
+            names[i] = names[j] + rng.choice(['_usd', 'x', '.', '0'])
         if rng.random() < 0.1:
             names[rng.randrange(len(names))] = 'x' * 3000
         elems = elements_for(cc, reps, rng.randrange(8), names)
